@@ -207,6 +207,58 @@ def check_C12(ctx):
             ctx.violation('open-ended-accepted', 'a pattern ending in %s was accepted' % p[-1], {'source': t})
         ctx.nontrivial(' '.join(p))
         ctx.dist('rejected' if rej else 'accepted')
+    # several macros in one source, rejected and accepted ones mixed in every order: the errors are exactly those of the
+    # rejected definitions (at their lines), accepted ones are applied, rejected ones are not
+    r = ctx.rnd
+    verdict = {}
+    pool = [p for p in pats if len(p) <= 3]
+    FILL = {'<ID>': 'a', '<INT>': '2', '<V>': 'b', '<A>': 'a , 2', '<P>': 'a := 1'}
+    sets = []
+    for _ in range(ctx.n(150, 1500)):
+        k = r.randint(2, 5)
+        ms = []
+        for i in range(k):
+            body = r.choice(pool) if r.random() < 0.6 else r.choice([['<P>'], ['<A>'], ['<V>', ';'], ['<P>', ';', 'foo'], ['<ID>', '<A>'], ['<P>', ';', '<P>']])
+            ms.append(['k%d' % i] + list(body))
+        orders = list(itertools.permutations(range(k))) if k <= 3 else [tuple(r.sample(range(k), k)) for _ in range(4)]
+        for od in orders:
+            sets.append([ms[i] for i in od])
+    stexts = []
+    for ms in sets:
+        defs = '\n'.join('DEFINE %s AS r%s END DEFINE' % (' '.join(m), m[0][1:]) for m in ms)
+        uses = ' @ '.join(' '.join(FILL.get(x, x) for x in m) for m in ms)
+        stexts.append(defs + '\n' + uses)
+    stoks = front.scan_tokens(ctx, stexts)
+    sex = impl(ctx, ['EXTRACT ' + t for t in stoks])
+    sjobs = [(12, fields(e)['macros'], fields(e)['out']) for e in sex]
+    sa, sm = front.corr_apply(ctx, sjobs, stexts)
+    for ms, x, t in zip(sets, sa, stexts):
+        ctx.cov['evaluations'] += 1
+        if is_crash(x):
+            ctx.violation('apply-crash', 'apply_macros crashed on a macro set: ' + x[:200], {'source': t})
+            continue
+        f = fields(x)
+        rej_lines = sorted(e[2] for e in parse_perrs(f['errs']) if e[0] == P['MACRO_COMPILE_NON_LR'])
+        want = []
+        for i, m in enumerate(ms):
+            key = ' '.join(m)
+            if key not in verdict:
+                verdict[key] = mo.lr1_conflicts(mo.rule_of([tok(s_) for s_ in m], SLOT, TEXTK))[0] > 0
+            if verdict[key]:
+                want.append(i + 1)
+        if rej_lines != want:
+            ctx.violation('nonlr-set-verdict', 'macro set: non-linear errors reported at lines %s, the independent LR(1) construction rejects the definitions at lines %s' % (rej_lines, want), {'source': t})
+            continue
+        out = [tk[1].decode('latin1') for tk in parse_toks(f['toks'])]
+        for i, m in enumerate(ms):
+            name = m[0]
+            if verdict[' '.join(m)] and name not in out:
+                ctx.violation('rejected-applied', 'the rejected macro %s was applied' % name, {'source': t})
+            if not verdict[' '.join(m)] and ('r' + name[1:]) not in out:
+                ctx.violation('rejected-blocks-others', 'the accepted macro %s was not applied (stream %s)' % (name, ' '.join(out)[:200]), {'source': t})
+        ctx.nontrivial('set:' + t[:200])
+        ctx.dist('set_rejected_%d' % len(want))
+    ctx.cov['macro_sets'] = len(sets)
     # uses of a rejected macro stay unrewritten
     t = 'DEFINE foo <P> AS x END DEFINE\nfoo a := 1'
     tk = front.scan_tokens(ctx, [t])[0]
